@@ -569,18 +569,46 @@ def fp_stability(inst):
         def run(arrs):
             from funsor.einsum.numpy_log import einsum
             return einsum(eq, *arrs)
-    FA.EXP_LOG.clear()
-    arrs, vars_ = [], []
-    for k, sh in enumerate(shapes):
-        a, v = FA.fp_array("x%d" % k, tuple(sh))
-        arrs.append(a)
-        vars_.append(v)
-    try:
+    def setup(c):
+        pass
+
+    def body():
+        FA.EXP_LOG.clear()
+        arrs = []
+        for k, sh in enumerate(shapes):
+            a, _v = FA.fp_array("x%d" % k, tuple(sh))
+            arrs.append(a)
         run(arrs)
-    except (NotImplementedError, TypeError) as e:
+        return list(FA.EXP_LOG)
+    vars_ = [FA.fp_array("x%d" % k, tuple(sh))[1] for k, sh in enumerate(shapes)]       # same names -> same z3 constants
+    try:
+        paths = engine.explore(body, max_paths=16, setup=setup)
+    except engine.PathCapExceeded:
+        out.update(status="inconclusive", detail="Engine F: path cap")
+        return out
+    bad_exc = [p_.exc for p_ in paths if p_.exc is not None]
+    if bad_exc:
+        e = bad_exc[0]
         out.update(status="inconclusive", detail="Engine F cannot run the current kernel source: %s: %s" % (type(e).__name__, str(e)[:100]))
         return out
-    logs = list(FA.EXP_LOG)
+    out["paths"] = len(paths)
+    all_unsat = True
+    for pr in paths:
+        r_ = _fp_stab_path(inst, out, kernel, shapes, dims_in, dims_out, vars_, pr.value, list(pr.ctx.pc), run, W)
+        if r_ is not None:
+            return r_
+    out["discharged"] = 1
+    return out
+
+
+def _fp_stab_path(inst, out, kernel, shapes, dims_in, dims_out, vars_, logs, pc, run, W):
+    """the stability contract on one control-flow path of the kernel (path condition pc); returns an outcome to stop
+    with, or None when the contract holds on this path"""
+    import time
+    import numpy as np
+    import z3
+    from symx import engine
+    from symx import fparray as FA
     if len(logs) != len(shapes) or any(l.shape != tuple(sh) for l, sh in zip(logs, shapes)):
         out.update(status="inconclusive", detail="kernel does not exponentiate each operand exactly once (exp calls: %s)" % [l.shape for l in logs])
         return out
@@ -605,20 +633,21 @@ def fp_stability(inst):
     sol = z3.Solver()
     sol.set("timeout", 120000 if os.environ.get("VERIF_TIER", "quick") == "quick" else 900000)
     sol.add(*cons)
+    sol.add(*pc)
     sol.add(z3.Not(z3.And(*good)))
     t1 = time.time()
     r = sol.check()
     engine.STATS.queries += 1
     engine.STATS.solver_s += time.time() - t1
-    out["solver_s"] = round(time.time() - t1, 2)
+    out["solver_s"] = round(out.get("solver_s", 0) + time.time() - t1, 2)
     if r == z3.unsat:
         engine.STATS.unsat += 1
-        out["discharged"] = 1
-        s2 = z3.Solver()      # reachability twin: with +inf / NaN operands the contract must be violable
-        s2.set("timeout", 60000)
-        s2.add(z3.Not(z3.And(*good)))
-        out["twin"] = str(s2.check())
-        return out
+        if out.get("twin") is None:
+            s2 = z3.Solver()      # reachability twin: with +inf / NaN operands the contract must be violable
+            s2.set("timeout", 60000)
+            s2.add(z3.Not(z3.And(*good)))
+            out["twin"] = str(s2.check())
+        return None
     if r != z3.sat:
         out.update(status="inconclusive", detail="FP query unknown/timeout")
         return out
@@ -652,7 +681,7 @@ def fp_stability(inst):
         not ((realc[i] == ref[i]) or abs(realc[i] - ref[i]) <= 1e-9 * max(1.0, abs(ref[i]))) for i in np.ndindex(*ref.shape))
     if bad:
         out.update(status="violation", kind="value", detail="%s on %s returns %s, exact limit %s (an exp argument leaves [-%g, %g])" % (
-            kernel if kernel == "logsumexp" else "numpy_log.einsum(%r)" % eq, [c.tolist() for c in conc], realc.tolist(), ref.tolist(), W, W),
+            kernel if kernel == "logsumexp" else "numpy_log.einsum(%r)" % inst[2], [c.tolist() for c in conc], realc.tolist(), ref.tolist(), W, W),
             replay=dict(kernel=kernel, inst=repr(inst), operands=[c.tolist() for c in conc]))
     else:
         out.update(status="inconclusive", detail="stability contract fails at %s but the real kernel is still accurate there" % [c.tolist() for c in conc])
@@ -747,6 +776,7 @@ def instances(tier):
     for sh in [(3,), (2, 2)] + ([(2, 3), (2, 2, 2)] if tier != "quick" else []):
         for ax in [None] + list(range(len(sh))):
             out.append(("fpstab", "logsumexp", sh, ax, False))
+    out.append(("fpstab", "logsumexp", (2, 2), 1, True))
     for eq, shs in [("ab,bc->ac", [(2, 2), (2, 2)]), ("ab,b->a", [(2, 2), (2,)]), ("a,a->", [(3,), (3,)]), ("ab->b", [(2, 2)]), ("a,b->ab", [(2,), (2,)]), ("ab,a->ab", [(2, 2), (2,)])] + (
             [("ab,bc,c->a", [(2, 2), (2, 2), (2,)]), ("ab,bc->ac", [(2, 3), (3, 2)]), ("ab,ab->", [(2, 2), (2, 2)])] if tier != "quick" else []):
         out.append(("fpstab", "einsum", eq, shs))
